@@ -18,6 +18,7 @@ import (
 	storetypes "cosmossdk.io/store/types"
 
 	sdk "github.com/cosmos/cosmos-sdk/types"
+	"github.com/cosmos/cosmos-sdk/x/auth/ante"
 )
 
 // Phase names of the observation points (DESIGN.md §2.1).
@@ -35,6 +36,7 @@ type Monitor interface {
 	BeforeBlock(c *Chain, ctx sdk.Context)                   // S0: committed state of h-1
 	BeginBlockEntry(c *Chain, ctx sdk.Context)               // S1: after PreBlocker
 	BeginBlockExit(c *Chain, ctx sdk.Context, err error)     // S2
+	BeforeTx(c *Chain, ctx sdk.Context, tx sdk.Tx)           // state just before the tx's ante handler runs
 	AfterTx(c *Chain, ctx sdk.Context, tx sdk.Tx, ok bool)   // Ti, inside the tx's branch
 	EndBlockEntry(c *Chain, ctx sdk.Context)                 // S3
 	EndBlockExit(c *Chain, ctx sdk.Context, err error)       // S4
@@ -47,6 +49,7 @@ type BaseMonitor struct{}
 func (BaseMonitor) BeforeBlock(*Chain, sdk.Context)               {}
 func (BaseMonitor) BeginBlockEntry(*Chain, sdk.Context)           {}
 func (BaseMonitor) BeginBlockExit(*Chain, sdk.Context, error)     {}
+func (BaseMonitor) BeforeTx(*Chain, sdk.Context, sdk.Tx)          {}
 func (BaseMonitor) AfterTx(*Chain, sdk.Context, sdk.Tx, bool)     {}
 func (BaseMonitor) EndBlockEntry(*Chain, sdk.Context)             {}
 func (BaseMonitor) EndBlockExit(*Chain, sdk.Context, error)       {}
@@ -142,6 +145,33 @@ func (h *Hooks) install(a *app.App) {
 		}
 		return res, err
 	})
+	// the application's own ante chain (app.NewAnteHandler with the options app.setAnteHandler uses), with an
+	// observation point in front of it: monitors see the exact state a transaction starts from
+	inner, err := app.NewAnteHandler(app.HandlerOptions{
+		HandlerOptions: ante.HandlerOptions{
+			AccountKeeper:   a.AccountKeeper,
+			BankKeeper:      a.BankKeeper,
+			SignModeHandler: a.TxConfig().SignModeHandler(),
+			FeegrantKeeper:  a.FeeGrantKeeper,
+			SigGasConsumer:  ante.DefaultSigVerificationGasConsumer,
+		},
+		ReporterKeeper:  a.ReporterKeeper,
+		StakingKeeper:   a.StakingKeeper,
+		GlobalFeeKeeper: a.GlobalFeeKeeper,
+	})
+	if err != nil {
+		panic(err)
+	}
+	a.SetAnteHandler(func(ctx sdk.Context, tx sdk.Tx, simulate bool) (sdk.Context, error) {
+		c := h.chain
+		if c != nil && c.observing && !simulate && ctx.ExecMode() == sdk.ExecModeFinalize {
+			ictx := infinite(ctx)
+			for _, m := range c.Monitors {
+				m.BeforeTx(c, ictx, tx)
+			}
+		}
+		return inner(ctx, tx, simulate)
+	})
 	a.SetPostHandler(func(ctx sdk.Context, tx sdk.Tx, simulate, success bool) (sdk.Context, error) {
 		c := h.chain
 		if c != nil && c.observing && !simulate && ctx.ExecMode() == sdk.ExecModeFinalize {
@@ -202,12 +232,13 @@ type Chain struct {
 	PendingHonest            map[string][]byte
 	ExtVerdicts, ExtRejected int
 
-	observing  bool
-	phase      string
-	txIndex    int
-	phaseErr   string
-	lastPanic  string
-	failModule string
+	observing     bool
+	phase         string
+	txIndex       int
+	phaseErr      string
+	lastPanic     string
+	failModule    string
+	onFinalizeReq func(*abci.RequestFinalizeBlock)
 
 	Violations []Violation
 	Flags      map[string]bool
@@ -368,6 +399,13 @@ type BlockPlan struct {
 	ProposerIdx int
 }
 
+// NextBlockRecorded is NextBlock with a callback that sees the FinalizeBlock request before it is executed.
+func (c *Chain) NextBlockRecorded(p BlockPlan, onReq func(*abci.RequestFinalizeBlock)) *BlockResult {
+	c.onFinalizeReq = onReq
+	defer func() { c.onFinalizeReq = nil }()
+	return c.NextBlock(p)
+}
+
 // NextBlock produces, processes, finalises and commits the next block.
 func (c *Chain) NextBlock(p BlockPlan) *BlockResult {
 	if c.Dead {
@@ -475,6 +513,9 @@ func (c *Chain) NextBlock(p BlockPlan) *BlockResult {
 	}
 	if c.Rec != nil {
 		c.Rec.Finalize(req)
+	}
+	if c.onFinalizeReq != nil {
+		c.onFinalizeReq(req)
 	}
 	c.lastExt = ec
 	c.observing = true
